@@ -267,6 +267,10 @@ def run(ctx):
         d.pop('_noreq', None)
     rejected, st = tlc.judge_cases('Conf_Eval', stripped, chunk=4000, timeout=3000)
     ctx.traces += len(cases)
+    from harness import canary
+    from checks import canaries
+    canary.probe(ctx, 'Conf_Eval(http)', [d for i, d in enumerate(stripped, 1) if i not in set(rejected)], canaries.evalcase,
+                 canary.by_cases('Conf_Eval'))
     for i in rejected:
         c = cases[i - 1]
         o = c['obs']
